@@ -14,7 +14,9 @@ Step(e) ==
 Conform(e) == FirstBad(<<
     <<"outcome", res' = e.res>>,          \* only the documented outcomes exist in the specification
     <<"statements", n' = e.n>>,
-    <<"twin", e.twin>>
+    <<"twin", e.twin>>,
+    \* a rejected text is rejected by a loader that never saw the earlier rejected texts, too
+    <<"history_independent", e.fresh>>
   >>)
 
 TNext == /\ TEnabled
